@@ -183,7 +183,11 @@ CHECKS = {
                    "against an independent predicate written from the statement (hash, ed25519 signature by the account's "
                    "owner via crypto/ed25519 + own sha3 address, typing, exact predecessor at/above the confirmed tip, "
                    "acknowledged momentum on the chain and not older than the predecessor's, amount in [0,2^255) and <= balance "
-                   "at the predecessor, receive of a confirmed-as-of-ack, unreceived send addressed to the receiver).",
+                   "at the predecessor, receive of a confirmed-as-of-ack, unreceived send addressed to the receiver). "
+                   "TestC03Contract: the producer's pooled contract receives are offered to a follower that has not seen them, "
+                   "together with mutations (any field, batched-send content with hashes kept, acknowledged momentum moved "
+                   "with all hashes recomputed, user fields on a contract block) and regenerated receives of already received "
+                   "sends; an accepted candidate must satisfy the predicate and equal the block the receiver regenerates.",
         level_note="One direction only (accepted => valid), as stated; candidates are offered through ApplyBlock, which is what "
                    "both the gossip and the sync path call before any insert. The predicate is validated on every state "
                    "against the node's own valid blocks.",
@@ -191,7 +195,8 @@ CHECKS = {
         rule="case = world + 1-8 states x valid base blocks x 24-60 mutated candidates; non-trivial item = (mutation, base type, "
              "repair mode) whose candidate passes hash and signature checks, i.e. reaches the contextual verifier",
         assumptions=HIST_ASSUME,
-        jobs=[dict(test="TestC03", quick=T(8, 60), thorough=T(16, 200, 0, 3000))],
+        jobs=[dict(test="TestC03", quick=T(6, 60), thorough=T(12, 200, 0, 3000)),
+              dict(test="TestC03Contract", quick=T(2, 60), thorough=T(4, 400, 0, 3000))],
     ),
     "C05": dict(
         level="exploration",
@@ -419,5 +424,37 @@ CHECKS = {
               dict(test="TestC18RawRequests", pkg="p18", quick=T(2, 500), thorough=T(4, 8000, 0, 3000)),
               dict(test="TestC18PageCap", pkg="p18", quick=T(1, 25), thorough=T(2, 600, 0, 3000)),
               F("FuzzC18Request", 180, "p18")],
+    ),
+    "C15": dict(
+        level="exploration",
+        level_text="Sessions against a real, started ProtocolManager (downloader, fetcher) over p2p.MsgPipe on a chain of 640 "
+                   "momentums: handshake (valid / wrong network / wrong genesis / missing) then generated message sequences "
+                   "(codes 0..8 and unknown; valid encodings with hostile parameters — unknown hashes, amounts 0 / 1 / 512 / 513 / "
+                   "2^64-1, numbers beyond the frontier, thousands of hashes; RLP mutations of valid payloads; random bytes; fake "
+                   "sizes up to and beyond 10 MiB; garbage replies to the node's own requests; honest, faulted and fabricated "
+                   "momentums) while an honest second peer is connected. Oracle: no panic (handler run under recover on a harness "
+                   "goroutine; other goroutines via the journalled case), malformed input ends only the offending peer, every "
+                   "reply <= 512 hashes / 128 momentums / 10 MiB, the honest peer is answered correctly afterwards, the chain is "
+                   "unchanged unless valid new momentums were delivered (then equal to a reference follower). RLPx frames: valid "
+                   "streams written by an independent reference writer, then bit flips / truncation / reordering / oversize "
+                   "headers: error at the corrupted position, never an altered message, no huge allocation. Handshakes (ECIES + "
+                   "devp2p) and discovery packets (ping / pong / findnode / neighbors and their mutations): error or clean "
+                   "handling, never a panic, a flipped bit never decodes under the original sender id.",
+        level_note="'Cannot block the message loop indefinitely' is liveness: a 20 s wait that is reported as inconclusive, never as "
+                   "a violation (0 such waits in the last 30k sessions). Not built with -race (the detector reports a node-internal "
+                   "race in discover.Table on Close which is outside the listed properties).",
+        technique="session-level stateful property testing (rapid) with reply-size and survival oracles; byte-level mutation testing of "
+                  "frames / packets against an independent reference encoder; native fuzzing of payloads, frames and packets",
+        rule="non-trivial = session with >=1 message that decodes far enough to reach a chain lookup or insert; frame stream whose "
+             "first differing byte lies after a header MAC (or a crafted header with valid MAC); packet that passes the hash check; "
+             "handshake message that passes ECIES integrity",
+        assumptions=["a fake msg.Size stands for the frame size; codes >= 9 never reach the handler in the real stack"],
+        death_is_violation=True,
+        jobs=[dict(test="TestC15Session", pkg="p15", quick=T(8, 350), thorough=T(12, 3000, 0, 3000)),
+              dict(test="TestC15Frames", pkg="p15", quick=T(2, 8000), thorough=T(4, 250000, 0, 3000)),
+              dict(test="TestC15Discovery", pkg="p15", quick=T(2, 3000), thorough=T(4, 40000, 0, 3000)),
+              dict(test="TestC15Handshake", pkg="p15", quick=T(1, 2500), thorough=T(2, 30000, 0, 3000)),
+              dict(test="TestC15Regress", pkg="p15", quick=T(1, 1), thorough=T(1, 1)),
+              F("FuzzC15Payload", 180, "p15"), F("FuzzC15Frame", 120, "p15"), F("FuzzC15Packet", 120, "p15")],
     ),
 }
